@@ -176,6 +176,6 @@ func NewRegistry(db *DB, cluster string) *Registry {
 	}}
 }
 func (r *Registry) GetDB(ctx context.Context) (*model.DataDatabasesMap, error) { return r.M, nil }
-func (r *Registry) Run()                                                         {}
-func (r *Registry) Stop()                                                        {}
-func (r *Registry) Ping() error                                                  { return nil }
+func (r *Registry) Run()                                                       {}
+func (r *Registry) Stop()                                                      {}
+func (r *Registry) Ping() error                                                { return nil }
